@@ -376,6 +376,9 @@ def _construct(fn, n):
         elts = s.elts if isinstance(s, ast.Tuple) else [s]
         if elts and isinstance(elts[0], ast.Constant) and elts[0].value is Ellipsis:
             return "ok", ""
+        if elts and isinstance(elts[0], ast.Name) and elts[0].id == "Ellipsis" and "Ellipsis" not in fn.ix.local_names(fn.f) \
+                and fn.ix.namespace(fn.f.module.name).get("Ellipsis") is None:
+            return "ok", ""         # the builtin name, i.e. the same index as `...`
         return "bad", "subscript %s indexes from the first axis" % norm_text(n)
     return None
 
